@@ -405,6 +405,12 @@ class Arbiter:
         self.kill_workers(sig)
         # wait until the graceful timeout
         while self.WORKERS and time.time() < limit:
+            if graceful and (signal.SIGQUIT in self.SIG_QUEUE
+                             or signal.SIGINT in self.SIG_QUEUE):
+                # asked for a quick shutdown while we wait for a graceful
+                # one: nobody reads the queue any more, act on it here
+                graceful = False
+                self.kill_workers(signal.SIGQUIT)
             time.sleep(0.1)
 
         self.kill_workers(signal.SIGKILL)
